@@ -15,6 +15,8 @@ CLAIMED = {
     "C01": ("model_checking", "5 C01", "TLC exhaustive check of spec/OrcaSeq.tla (every reachable (state, command) pair of both orchestrator ports and of the L1-only orchestrator; invariant ReplyOK against the reference map of spec/Memcache.tla); every exported transition (quick: a seeded sample) is executed on real rend stacks (7+5 deployment shapes, text and binary) from the same tier contents and the decoded reply compared with TLC's; random histories with multi-key and quiet gets are recorded and validated event by event by TLC against spec/OrcaTrace.tla."),
     "C02": ("model_checking", "5 C02", "Same design model with Evict(k) enabled for every key in every state (invariants Subset, RefEq, ReplyOK); transitions including evictions replayed on the real stack, tier contents projected from the fake backends and compared; a Subset/RefEq difference is confirmed by reads through the client interface before and after emptying L1; recorded histories with random eviction sets validated by TLC."),
     "C03": ("model_checking", "5 C03", "spec/OrcaConc.tla: all interleavings at lock-acquisition and handler-call granularity of 2-3 clients on main and batch ports sharing one lock table (single- and multi-reader, 1-2 stripes), invariants ReplyOK/Subset/RefEq, negative control without the wrapper. Binding: depth-first enumeration of the schedules of the REAL LockedOrca + L1L2/L1L2Batch code (instrumented lockers through the verif hook, gated handlers over fake memcached); every execution validated by TLC against spec/OrcaLin.tla (linearizability by silent Lin steps, final L1/L2 agreement)."),
+    "C04": ("model_checking", "5 C04", "spec/ChunkNames.tla: TLC checks over an adversarial key alphabet (keys ending in -1, -meta, -, ...) that the derived backend names <key>-meta / <key>-<i> are injective and that the owner of an entry is recoverable. Binding: random sequential histories through the real chunked handler (all handler methods; value lengths 1, payload-1, payload, payload+1 ... 4*payload, 10*payload, thorough 999*payload; key lengths 1..250; key slices with and without spare capacity; adversarial key shapes) with the backend table decoded after every call; TLC validates replies and table against the reference map of spec/Memcache.tla (OrcaTrace, one tier: ReplyOK, RefEq, Stray entries); the direct handler runs as control."),
+    "C05": ("model_checking", "5 C05", "spec/Chunked.tla: writers (set/add/replace, metadata then chunks), readers (get / get-and-touch incl. its metadata refresh) and evictions at backend-request granularity; TLC checks AllOrNothing over all interleavings (2 writers x 1-2 readers x up to 7 losses), negative control without the chunk-count rule. Binding: real chunked handlers on separate connections against a gated fake backend; the scheduler enumerates depth-first (then randomly, within a cap) which connection's next backend request is processed or which entry is lost, incl. all loss subsets/positions for a stored value of 0..6 chunks; every execution is replayed by TLC through the actions of Chunked.tla (ChunkedTrace: the handler's request sequence must be the specification's, a reader's result the specification's result; AllOrNothing decided on the returned bytes)."),
     "C08": ("model_checking", "5 C08", "spec/Replies.tla states, for every request kind, outcome and protocol, the reply units that must be sent; spec/Conn.tla checks by TLC over all pipelines of <= 3 requests that positional (text) attribution and one-terminator-per-get follow; spec/ConnTrace.tla validates the reply units the harness's strict decoder observed on real connections for random pipelines (failing requests included) in every deployment shape x protocol."),
     "C09": ("model_checking", "5 C09", "Design model with the TTL classes {never, relative, 30 days, 30 days + 1 s, absolute future, absolute past} and clock ticks (invariant TTLOK: every tier entry carries the reference deadline); transitions replayed on the real stack over direct, chunked and batched handlers and the expiry of every serving backend entry compared with TLC's successor state; recorded histories with ticks validated by TLC."),
     "C10": ("model_checking", "5 C10", "spec/OrcaFault.tla: every program of <= 3-4 commands on both ports, every handler-call position, fault kinds {error status, connection lost before / after the request is applied}, a lost backend connection staying lost for the rest of the client connection; invariant Admissible (admissible-set oracle: no read returns a value from before an acknowledged write or delete; a miss is tolerated after a fault), liveness Terminates under weak fairness, negative control. Binding: for every scenario (pre-state, port, command incl. multi-key quiet gets) the harness places every fault kind at every backend request index on L1 and on L2 of the real stack (direct, chunked, batched handlers), records the affected request (deadline 4 s), the same connection afterwards and fresh connections before and after emptying L1; TLC validates the traces against spec/OrcaTrace.tla."),
